@@ -803,6 +803,79 @@ class _NP:
             return a._agg("std_ddof%d" % ddof)
         raise Unsupported("np.std of an array")
 
+    # ---- further element-wise / reduction entries (keep refactored code inside the modelled subset)
+    def ptp(self, a, axis=None):
+        if axis is not None:
+            raise Unsupported("ptp(axis)")
+        return _minmax("max", a, False) - _minmax("min", a, True)
+
+    def square(self, x):
+        return _ew1("square", lambda v: _numeric(v) * _numeric(v), x, None if _arrish(x) else "f")
+
+    def negative(self, x):
+        return _ew1("negative", lambda v: -_numeric(v), x, None if _arrish(x) else "f")
+
+    def sign(self, x):
+        return _ew1("sign", lambda v: ite(_numeric(v) > 0, 1, ite(_numeric(v) < 0, -1, 0)), x, None)
+
+    def power(self, x, y):
+        from .core import power as _pw
+
+        return _ew2("power", _pw, x, y)
+
+    def divide(self, x, y, out=None):
+        if _arrish(y):
+            from .arr import _divisor_nonzero
+
+            _divisor_nonzero(as_array(y), None)
+        return _ew2("divide", div, x, y, "f", out)
+
+    true_divide = divide
+
+    def equal(self, x, y, out=None):
+        return _ew2("equal", lambda a, b: _numeric(a) == _numeric(b), x, y, "b", out)
+
+    def not_equal(self, x, y, out=None):
+        return _ew2("not_equal", lambda a, b: _numeric(a) != _numeric(b), x, y, "b", out)
+
+    def isclose(self, a, b, rtol=1e-05, atol=1e-08):
+        return _ew2("isclose", lambda x, y: abs(_numeric(x) - _numeric(y)) <= atol + rtol * abs(_numeric(y)), a, b, "b")
+
+    def array_equal(self, a, b):
+        a, b = as_array(a), as_array(b)
+        if a.ndim != b.ndim:
+            return False
+        e = elementwise(lambda x, y: _numeric(x) == _numeric(y), (a, b), "b")
+        return _quantified_bool("all", e, False)
+
+    def clip(self, a, lo, hi):
+        return _ew1("clip", lambda v: vmin(vmax(_numeric(v), lo), hi), a, None if _arrish(a) else "f")
+
+    def floor(self, x):
+        from .core import floor_int
+
+        return _ew1("floor", lambda v: floor_int(v), x, "f")
+
+    def full_like(self, a, value, dtype=None):
+        a = as_array(a)
+        return self.full(a.shape, value, dtype if dtype is not None else a.dtype)
+
+    def stack(self, arrs, axis=0):
+        if axis != 0:
+            raise Unsupported("stack(axis != 0)")
+        return from_list([as_array(x) for x in arrs])
+
+    vstack = stack
+
+    def hstack(self, arrs):
+        return self.concatenate(arrs)
+
+    def count_nonzero(self, a):
+        raise Unsupported("count_nonzero")
+
+    def hypot_(self):
+        raise Unsupported("internal")
+
     def unravel_index(self, indices, shape):
         _use("unravel_index")
         from .prelude_index import GenericElem, SymIndexArr, np_unravel
